@@ -369,6 +369,16 @@ class Forall:
         self.sort = sort
 
 
+class ForallCases(Forall):
+    """forall k. ante(k) => conseq(k), proved by an exhaustive case split: for the skolem key the antecedent and each
+    case are *assumed* (solver scope) before the consequent's terms are built, so that the term normaliser can use them
+    (e.g. `k is an old batch key` => its range lies inside the old content).  As a hypothesis it is the plain implication."""
+
+    def __init__(self, ante, cases, conseq, sort='str'):
+        Forall.__init__(self, lambda k: implies(ante(k), conseq(k)), sort)
+        self.ante, self.cases, self.conseq = ante, cases, conseq
+
+
 # ----------------------------------------------------------------------------- the engine
 _CUR = [None]
 
@@ -397,6 +407,7 @@ class Engine:
         self.key_terms = []
         self.int_terms = {}
         self._instantiating = False
+        self._scope_depth = 0
         self.path_id = 0
         self.path_log = []
         self.env_hook = None
@@ -427,6 +438,7 @@ class Engine:
             self.key_terms = []
             self.int_terms = {}
             self._instantiating = False
+            self._scope_depth = 0
             self.path_log = []
             self.ghost = {}
             reset_names()
@@ -477,7 +489,8 @@ class Engine:
             self.solver.pop()
             self.solver.set('timeout', self.timeout_ms)
         if r == z3.unsat:
-            cache[key] = cond
+            if self._scope_depth == 0:
+                cache[key] = cond     # (inside a pushed scope the fact may not survive the pop: not memoised)
             return True
         return False
 
@@ -617,6 +630,8 @@ class Engine:
         if ob is None:
             ob = self.obligations[name] = Obligation(name)
         ob.paths += 1
+        if isinstance(f, ForallCases):
+            return self._check_cases(ob, name, f, info)
         if isinstance(f, Forall):
             f = f.fn(self.fresh_key('sk') if f.sort == 'str' else self.ikey(SInt.fresh('ski'), f.sort))
         if isinstance(f, bool):
@@ -667,6 +682,87 @@ class Engine:
             print(f'   [check {time.time() - t0:.1f}s {r}] {name}', file=sys.stderr, flush=True)
         self.solver.add(t)
         return r == z3.unsat
+
+    def _check_cases(self, ob, name, f, info):
+        t0 = time.time()
+        # the skolem constant is registered for instantiation only INSIDE each case scope (below), so that the instances
+        # of the hypotheses are built with the antecedent and the case assumption available to the term normaliser
+        sk = SStr.fresh('sk') if f.sort == 'str' else SInt.fresh('ski')
+        ok = True
+        self.solver.push()
+        self._scope_depth += 1
+        try:
+            self.solver.add(SBool.of(f.ante(sk)).t)
+            cases = [tuple(c) + (None,) * (3 - len(c)) for c in f.cases(sk)]
+            r = self._check_sat(z3.Not(z3.Or(*[SBool.of(c[1]).t for c in cases])))
+            results = [('cases_exhaustive', r)]
+            for cname, cond, rep in cases:
+                self.solver.push()
+                self._scope_depth += 1
+                try:
+                    self.solver.add(SBool.of(cond).t)
+                    # a case of the form `k == t` may name t: the consequent is then built for t itself (same thing under
+                    # the case assumption, but the terms simplify syntactically)
+                    if rep is not None:
+                        self.solver.add((sk == rep).t)
+                    self._instantiating = True
+                    try:
+                        for hyp in list(self.univ):
+                            if hyp.sort == f.sort:
+                                self.solver.add(SBool.of(hyp.fn(sk)).t)
+                    finally:
+                        self._instantiating = False
+                    t = z3.simplify(SBool.of(f.conseq(sk if rep is None else rep)).t)
+                    if z3.is_true(t):
+                        r = z3.unsat
+                    else:
+                        # a conjunction is discharged conjunct by conjunct (each with its own solver budget)
+                        r = z3.unsat
+                        for cj in (t.children() if z3.is_and(t) else [t]):
+                            rc = self._check_sat(z3.Not(cj))
+                            if rc != z3.unsat and os.environ.get('PYVC_TRACE') == 'goal':
+                                import sys
+                                print(f'      [{cname}] conjunct {rc}: {str(cj)[:1500]}', file=sys.stderr, flush=True)
+                            if rc == z3.sat:
+                                r = z3.sat
+                                break
+                            if rc != z3.unsat:
+                                r = rc
+                    results.append((cname, r))
+                    if r != z3.unsat and os.environ.get('PYVC_TRACE') == 'goal':
+                        import sys
+                        conj = t.children() if z3.is_and(t) else [t]
+                        for cj in conj:
+                            rr = self._check_sat(z3.Not(cj))
+                            print(f'      [{cname}] conjunct {rr}: {str(cj)[:1200]}', file=sys.stderr, flush=True)
+                finally:
+                    self._scope_depth -= 1
+                    self.solver.pop()
+        finally:
+            self._scope_depth -= 1
+            self.solver.pop()
+        # (registered at top level afterwards: later hypotheses see the constant too)
+        if f.sort == 'str':
+            self.key(sk)
+        else:
+            self.ikey(sk, f.sort)
+        bad = [(n, r) for n, r in results if r != z3.unsat]
+        if not bad:
+            ob.discharged += 1
+            ob.witnessed = True
+        elif any(r == z3.sat for _, r in bad):
+            ob.failed.append({'path': list(self.path_log), 'trace': list(self.trace), 'model': {'cases': str(bad)},
+                              'clause': f'case split {[n for n, _ in results]}: {bad}', 'info': info})
+        else:
+            ob.unknown.append({'path': list(self.path_log), 'reason': self.solver.reason_unknown() + f' in case(s) {[n for n, _ in bad]}',
+                               'clause': f'case split {[n for n, _ in results]}'})
+        ob.time += time.time() - t0
+        if os.environ.get('PYVC_TRACE') and time.time() - t0 > 0.5:
+            import sys
+            print(f'   [check-cases {time.time() - t0:.1f}s {results}] {name}', file=sys.stderr, flush=True)
+        if not bad:
+            self.assume(Forall(f.fn, f.sort))
+        return not bad
 
     def _one_shot(self, negated_goal, name=''):
         s2 = z3.Solver()
